@@ -85,7 +85,15 @@ def schedules(ctx, module, cfg, project, timeout=1200, extra_key="", max_len=600
             pass
     r, g = dump_graph(ctx, module, cfg, timeout=timeout)
     paths = cover(ctx, g, max_len=max_len)
-    beh = [[project(a, args, s) for a, args, s in g.steps(p)] for p in paths]
+    memo = {}
+
+    def pe(e):      # the projection of a step only depends on the edge
+        r = memo.get(e)
+        if r is None:
+            _, d, a, args = g.edges[e]
+            r = memo[e] = project(a, args, g.state(d))
+        return r
+    beh = [[pe(e) for e in p] for p in paths]
     if delta:
         beh = [_delta(st) for st in beh]
     if project_init:
